@@ -317,6 +317,14 @@ func checkAllPrefixes(t *rapid.T, h *history) {
 	n := h.log.Len()
 	hkey := stats.Hash(h.variant, h.log.Records())
 	anyNontrivial := false
+	// offered before the crash points are counted, so that a collector with evaluations always has a sample
+	st.Sample(func() interface{} {
+		recs := []string{}
+		for _, r := range h.log.Records() {
+			recs = append(recs, r.String())
+		}
+		return map[string]interface{}{"variant": h.variant, "trace": h.trace, "log": recs, "crash_points": n + 1}
+	})
 	for p := 0; p <= n; p++ {
 		state := h.log.StateAt(p)
 		backend := crashlog.NewProducerOver(state, nil)
@@ -422,13 +430,6 @@ func checkAllPrefixes(t *rapid.T, h *history) {
 		st.Class("histories_2plus_flushes", 1)
 	}
 	st.Class("log_records", int64(n))
-	st.Sample(func() interface{} {
-		recs := []string{}
-		for _, r := range h.log.Records() {
-			recs = append(recs, r.String())
-		}
-		return map[string]interface{}{"variant": h.variant, "trace": h.trace, "log": recs, "crash_points": n + 1}
-	})
 }
 
 // TestC25CrashPoints: every prefix of the durable-operation log of generated histories.
